@@ -27,7 +27,12 @@ func vfc20NewAddr(rng *rand.Rand, addrs []string) (string, string) {
 		return a == ""
 	}
 	var cand string
-	switch vfkit.Pick(rng, []string{"before", "between", "after", "random"}) {
+	switch vfkit.Pick(rng, []string{"before", "between", "after", "random", "sibling", "sibling"}) {
+	case "sibling": // same host:port family as an existing member: same host other port, or other host same port
+		var ok bool
+		if cand, ok = vfc18kSibling(rng, vfkit.Pick(rng, addrs)); !ok {
+			cand = vfc18kAddresses(rng, 1, "new-")[0]
+		}
 	case "before":
 		cand = "\x01" + vfkit.Str(rng, 2, false)
 	case "after":
@@ -53,7 +58,7 @@ func TestVF_C20(t *testing.T) {
 	r := vfkit.Start(t, "C20")
 	defer r.Finish()
 	nSeries := 2000
-	r.Rule("case = ketama ring R of 1..12 distinct endpoints without availability zones, RF 1..min(5,n), and R+{e} where the new endpoint e sorts before / between / after the existing addresses or is random and is inserted at a random position of the list; " +
+	r.Rule("case = ketama ring R of 1..12 distinct endpoints without availability zones, RF 1..min(5,n), and R+{e} where the new endpoint e sorts before / between / after the existing addresses, is random, or is a host:port sibling of a member (same host other port / other host same port; members themselves come from 8 address styles incl. families differing only in the port or only in the host) and is inserted at a random position of the list; " +
 		"2000 series (tenant from the alphabet) per pair; oracle: for every series the replica set {GetN(k), k<RF} on R+{e} equals the set on R, or equals it with exactly one member replaced by e; " +
 		"distinct = ring pair; non-trivial = at least one series moved onto e")
 	n := r.N(200, 2500)
